@@ -6,8 +6,9 @@ EXTENDS TraceIO, SharedSessionProp
 ResetAct == MReset
 
 StepAct ==
-  /\ \/ Is("mreq_begin") /\ MReqBegin(Ev.c, Ev.m, Ev.st0)
-     \/ Is("mreq")       /\ MReqEnd(Ev.c, Ev.m, Ev.nresp, Ev.cseqOk, Ev.status, Ev.st1, Ev.udp)
+  /\ \/ Is("mreq_begin") /\ MReqBegin(Ev.c, Ev.m, Ev.st0, Ev.sid)
+     \/ Is("mreq")       /\ \/ MReqEnd(Ev.c, Ev.m, Ev.nresp, Ev.cseqOk, Ev.status, Ev.st1, Ev.udp)
+                             \/ MReqEndForeign(Ev.c, Ev.nresp, Ev.cseqOk, Ev.status)
      \/ Is("conn_open")  /\ UNCHANGED mvars
      \/ Is("sess_open")  /\ MSessOpen
      \/ Is("sess_close") /\ MSessClose
